@@ -122,6 +122,7 @@ class BtRun:
         self.events: Dict[int, Tuple[int, float]] = {}      # eid -> (source index, when_s)
         self.src_events: Dict[int, List[int]] = {}           # source index -> event ids it must deliver
         self.pushed_by: Dict[int, int] = {}                 # eid -> seq at which it was pushed (derived events)
+        self.pushed_from: Dict[int, tuple] = {}             # eid -> (handler id, event id) of the invocation that pushed it
         self.jobs: Dict[int, Dict[str, Any]] = {}           # jid -> {when, sched_seq, sched_now, by}
         self.subs: Dict[int, List[int]] = collections.defaultdict(list)   # source index -> handler ids in order
         self.outcome: Any = None
@@ -322,6 +323,7 @@ class BtRun:
                         run.events[ne.eid] = (len(run.sources) + push["to"], w)
                         run.src_events.setdefault(len(run.sources) + push["to"], []).append(ne.eid)
                         run.pushed_by[ne.eid] = tr.seq
+                        run.pushed_from[ne.eid] = (hid, eid)
                         run.derived[push["to"]].push(ne)
             for sj in sub.get("schedule", []):
                 if sj["on"] == n:
@@ -582,6 +584,26 @@ def check_c13(run: BtRun) -> List[Tuple[str, str]]:
                 out.append(("job_after_later_event",
                             f"job {jid} (t={info['when']}, scheduled at clock {info['sched_now']}) started after event "
                             f"{eid} (t={ew}) had started"))
+    # a job scheduled into the past by a handler, while a derived event of the current clock value was pushed in the same
+    # pass (or a later one) and therefore not popped yet, runs before that event: the pass ends, the job is due, the
+    # next pass starts with the due jobs
+    for eid, (phid, peid) in getattr(run, "pushed_from", {}).items():
+        if eid not in first_start or eid not in run.events:
+            continue
+        ew = run.events[eid][1]
+        pend = next((r[0] for r in run.trace.rows if r[0] > run.pushed_by[eid] and r[1] == "end" and r[2] != "job"
+                     and r[3] == phid and r[4] == peid), None)
+        if pend is None:
+            continue
+        for jid in ids:
+            info = run.jobs[jid]
+            if jid in jstart and info["by"] and info["by"].startswith("h") and info["sched_now"] is not None \
+                    and abs(info["sched_now"] - ew) < 1e-9 and info["when"] < ew - 1e-9 and info["sched_seq"] <= pend \
+                    and first_start[eid] < jstart[jid]:
+                out.append(("job_after_later_event",
+                            f"job {jid} (t={info['when']}, scheduled at clock {info['sched_now']} by {info['by']}) started after "
+                            f"derived event {eid} (t={ew}), which was pushed in the same pass and not popped yet when the "
+                            f"job was scheduled"))
     # clock never moves backwards (jobs included)
     prev = None
     for (seq, phase, kind, ident, eid, when_s, now_s) in run.trace.rows:
